@@ -10,7 +10,7 @@ CLAIM = dict(
          "ended stream) and retrieve (fault after g entries); TLC checks that a hit is always complete and enumerates every scenario for both cache kinds. Each "
          "scenario runs against the real httpCache (in-process HTTP server that commits a PUT body only on a clean end of request and can drop connections "
          "mid-body) and the real cmdCache (store `cat > tmp && mv`, retrieve `cat`; failing commands), with the read fault produced by a fault hook in the tar "
-         "producer or by a missing output, in flat and directory-shaped output sets; a reported hit must restore exactly the stored files, also when unpacking over the previous version's outputs (stale directory entries, a first output "
+         "producer, by a missing output or by a file that vanishes while the entry before it is being archived, in flat and directory-shaped output sets; a reported hit must restore exactly the stored files, also when unpacking over the previous version's outputs (stale directory entries, a first output "
          "that is a symlink or a hard link to a file elsewhere, which must stay intact).",
     note="Transport fault positions are entry-granular, not every byte offset; the HTTP server and the shell commands are the harness's (the documented atomic "
          "forms); retrieve commands that exit 0 after truncating their output are outside the statement.",
@@ -39,6 +39,10 @@ def run(ctx):
                 for shape in (["flat", "dir"] if c["files"] >= 2 else ["flat"]):
                     if st == "missing" and shape == "dir" and c["readFaultAt"] > 1:
                         continue   # a file missing INSIDE a directory output is not a fault: the directory's listing is the stored set
+                    if st == "hook" and shape == "dir" and c["files"] >= 3 and c["readFaultAt"] == c["files"] and not c.get("stale"):
+                        # the same read fault produced for real: the file vanishes after its directory was listed, while the
+                        # (large) entry before it is still being archived
+                        cases.append(dict(c, faultStyle="vanish", shape=shape, staleStyle=""))
                     if c.get("staleLink"):
                         cases.append(dict(c, faultStyle=st, shape=shape, staleStyle="symlink"))
                         cases.append(dict(c, faultStyle=st, shape=shape, staleStyle="hardlink"))
@@ -48,6 +52,7 @@ def run(ctx):
         c["id"] = i
     obs = vlib.run_vh(ctx, "streamcache", cases, timeout=3000)
     drift = 0
+    drifted = []
     for c in cases:
         o = obs[c["id"]]
         fault = "read-fault" if c["readFaultAt"] else "transport-fault" if c["sendFaultAt"] else "none"
@@ -67,6 +72,8 @@ def run(ctx):
                     " over-stale-outputs" if c.get("stale") else ""), dict(case=c, observed=o))
         if o["committed"] != c["expectCommitted"]:
             drift += 1
+            drifted.append({k: c[k] for k in ("kind", "files", "readFaultAt", "sendFaultAt", "faultStyle", "shape")})
     if drift:
-        ctx.drift("%d scenario(s) committed / did not commit differently from the model (allowed when no incomplete hit results)" % drift)
+        ctx.drift("%d scenario(s) committed / did not commit differently from the model (allowed when no incomplete hit results), e.g. %s"
+                  % (drift, json.dumps(drifted[:3])))
     ctx.exhaustive = True
